@@ -5,7 +5,7 @@ patch=$1; shift
 cd /repo || exit 2
 if ! git diff --quiet; then echo "repo not clean"; exit 2; fi
 git apply "$patch" || { echo "patch does not apply"; exit 2; }
-props=${@:-C01 C02 C03 C04 C05 C06 C08 C09 C10 C11 C12 C13 C14 C16 C17 C18 C19 C20}
+props=${@:-C01 C02 C03 C04 C05 C06 C07 C08 C09 C10 C11 C12 C13 C14 C16 C17 C18 C19 C20}
 cd /verif
 for p in $props; do
   out=$(/venv/bin/python -m sv $p --no-write 2>&1); code=$?
